@@ -109,14 +109,106 @@ def cases(tier, seed):
         "exact_geoms": 1,
       }
     )
+  # per-world (batched) solver options: 6 worlds of bodies sliding on a plane; Model.opt.impratio_invsqrt / tolerance /
+  # ls_tolerance, Model.stat.meaninertia and Model.geom_friction are batched with DIFFERENT leading sizes (a permutation of
+  # 1, 2, 3, 6); world w is certified with ITS OWN option values and against a MuJoCo model carrying them
+  ocombos = [("elliptic", "Newton", "dense"), ("elliptic", "Newton", "sparse"), ("elliptic", "CG", "dense"), ("pyramidal", "Newton", "sparse"), ("elliptic", "CG", "sparse"), ("pyramidal", "CG", "dense")]
+  ob = []
+  for i in range(24 if tier == "quick" else 300):
+    c, s, j = ocombos[i % 6]
+    ob.append({"id": f"optb{seed}_{i}", "kind": "optb", "seed": seed * 100000 + 60000 + i, "n": (3, 4, 5)[(i // 6) % 3], "cone": c, "solver": s, "jac": j, "settle": (0, 4)[(i // 2) % 2], "weight": 3, "exact_geoms": int(i % 3 != 2)})
   for k, p in enumerate(REPO_MODELS):
     for r in range(2 if tier == "quick" else 12):
       c, s, j = combos[(k * 3 + r) % 8]
       out.append({"id": f"repo{seed}_{k}_{r}", "kind": "repo", "path": p, "seed": seed * 100000 + 90000 + r, "cone": c, "solver": s, "jac": j, "settle": (40, 0)[r % 2], "weight": 2, "exact_geoms": int(k == 0)})
-  return out
+  return ob + out
+
+
+OPTB_NWORLD = 6
+OPTB_LENS = (1, 2, 3, 6)  # divisors of OPTB_NWORLD: leading sizes of the batched option arrays
+
+
+def slide_xml(rng, n, cone, solver, jac, kinds):
+  """n free bodies resting (slightly interpenetrating) side by side on a frictional plane, optionally one more stacked on
+  the first; the states give them tangential velocities, so that frictional contacts sit on the cone surface."""
+  ts = rng.choice([0.002, 0.004, 0.005])
+  out = ["<mujoco>", f'  <option timestep="{ts}" cone="{cone}" solver="{solver}" jacobian="{jac}" iterations="100" ls_iterations="50"/>', "  <worldbody>"]
+  out.append(f'    <geom name="floor" type="plane" size="0 0 1" condim="{(3, 3, 4, 6)[rng.integers(4)]}" friction="{rng.uniform(0.3, 1.2):.3g} {rng.uniform(0.003, 0.02):.3g} {rng.uniform(0.0005, 0.005):.3g}"/>')
+  stack = n >= 4 and rng.random() < 0.5
+  h0 = 0.0
+  for i in range(n):
+    k = kinds[rng.integers(len(kinds))]
+    r = rng.uniform(0.06, 0.12)
+    euler = ""
+    if k == "sphere":
+      size, h = f"{r:.4g}", r
+    elif k == "capsule":
+      size, h = f"{0.7 * r:.4g} {r:.4g}", 0.7 * r
+      euler = ' euler="0 90 0"' if rng.random() < 0.5 else ' euler="90 0 0"'
+    elif k == "cylinder":
+      size, h = f"{r:.4g} {0.8 * r:.4g}", 0.8 * r
+    else:  # box / ellipsoid
+      size, h = f"{r:.4g} {r * rng.uniform(0.6, 1.2):.4g} {0.8 * r:.4g}", 0.8 * r
+    pen = rng.uniform(0.0003, 0.003)
+    if stack and i == n - 1:
+      pos = (rng.normal() * 0.01, rng.normal() * 0.01, 2 * h0 + h - 2 * pen)
+    else:
+      pos = (0.4 * (i % 3) + rng.normal() * 0.01, 0.4 * (i // 3) + rng.normal() * 0.01, h - pen)
+    if i == 0:
+      h0 = h
+    cd = (3, 3, 4, 6)[rng.integers(4)]
+    fr = f"{rng.uniform(0.2, 1.5):.3g} {rng.uniform(0.002, 0.02):.3g} {rng.uniform(0.0005, 0.01):.3g}"
+    sol = f' solref="{rng.uniform(0.005, 0.04):.3g} {rng.uniform(0.7, 1.3):.3g}"' if rng.random() < 0.3 else ""
+    out.append(f'    <body name="s{i}" pos="{pos[0]:.4g} {pos[1]:.4g} {pos[2]:.5g}"><freejoint/><geom type="{k}" size="{size}"{euler} condim="{cd}" friction="{fr}" density="{rng.uniform(300, 3000):.4g}"{sol}/></body>')
+  out += ["  </worldbody>", "</mujoco>"]
+  return "\n".join(out)
+
+
+def batch_options(rng, mjm, m, nworld):
+  """Gives every world its own solver options: Model.opt.impratio_invsqrt, opt.tolerance, opt.ls_tolerance,
+  stat.meaninertia (the solver's scaling of its tolerance test) and geom_friction become batched arrays whose leading
+  sizes differ from one another. Returns (per-world MuJoCo models carrying world w's values, {field: leading size})."""
+  import copy
+
+  import warp as wp
+
+  perm = [int(x) for x in rng.permutation(OPTB_LENS)]
+  lens = {"impratio_invsqrt": perm[0], "tolerance": perm[1], "ls_tolerance": perm[2], "meaninertia": perm[3], "geom_friction": int(rng.choice(OPTB_LENS))}
+  if lens["impratio_invsqrt"] == 1 and rng.random() < 0.7:
+    # the friction-to-normal impedance ratio is the option the cone cost itself depends on: mostly keep it per-world
+    other = [k for k in ("tolerance", "ls_tolerance", "meaninertia") if lens[k] > 1][int(rng.integers(3))]
+    lens["impratio_invsqrt"], lens[other] = lens[other], 1
+  imp = np.exp(rng.uniform(np.log(0.3), np.log(30.0), size=lens["impratio_invsqrt"]))
+  tol = 10.0 ** rng.uniform(-10, -5, size=lens["tolerance"])
+  lstol = 10.0 ** rng.uniform(-2.5, -1, size=lens["ls_tolerance"])
+  mi = float(mjm.stat.meaninertia) * np.exp(rng.uniform(np.log(0.3), np.log(3.0), size=lens["meaninertia"]))
+  fri = np.array(mjm.geom_friction)[None] * np.exp(rng.uniform(np.log(0.5), np.log(2.0), size=(lens["geom_friction"], mjm.ngeom, 1)))
+  inv32 = (1.0 / np.sqrt(imp)).astype(np.float32)
+  tol32, ls32, mi32, fri32 = tol.astype(np.float32), lstol.astype(np.float32), mi.astype(np.float32), fri.astype(np.float32)
+  m.opt.impratio_invsqrt = wp.array(inv32, dtype=float)
+  m.opt.tolerance = wp.array(tol32, dtype=float)
+  m.opt.ls_tolerance = wp.array(ls32, dtype=float)
+  m.stat.meaninertia = wp.array(mi32, dtype=float)
+  m.geom_friction = wp.array(fri32, dtype=wp.vec3)
+  for a in (m.opt.impratio_invsqrt, m.opt.tolerance, m.opt.ls_tolerance, m.stat.meaninertia, m.geom_friction):
+    a._is_batched = True
+  models = []
+  for w in range(nworld):
+    mm = copy.copy(mjm)
+    mm.opt.impratio = 1.0 / float(inv32[w % inv32.size]) ** 2
+    mm.opt.tolerance = float(tol32[w % tol32.size])
+    mm.opt.ls_tolerance = float(ls32[w % ls32.size])
+    mm.stat.meaninertia = float(mi32[w % mi32.size])
+    mm.geom_friction[:] = fri32[w % fri32.shape[0]]
+    models.append(mm)
+  return models, lens
 
 
 def build(case, rng):
+  if case["kind"] == "optb":
+    kinds = ("sphere", "capsule") if case["exact_geoms"] else ("sphere", "capsule", "box", "ellipsoid", "cylinder")
+    xml = slide_xml(rng, case["n"], case["cone"], case["solver"], case["jac"], kinds)
+    return xml, gen.compile_xml(xml), ["scene:slide-per-world-options"]
   if case["kind"] == "gen":
     xml, mjm, feat, _ = gen.make_model(case["seed"], PROFILE_U if case["exact_geoms"] else PROFILE_X)
     return xml, mjm, feat or []
@@ -356,10 +448,29 @@ def run_case(case):
     return rec.result()
   solver = "Newton" if mjm.opt.solver == mujoco.mjtSolver.mjSOL_NEWTON else "CG"
   cone = "elliptic" if mjm.opt.cone == mujoco.mjtCone.mjCONE_ELLIPTIC else "pyramidal"
-  nworld = 12 if case["kind"] == "arm" else 3
+  optb = case["kind"] == "optb"
+  nworld = 12 if case["kind"] == "arm" else (OPTB_NWORLD if optb else 3)
+  # per-world MuJoCo models: the same model for every world unless the case batches Model fields per world
+  mj_models, blens = [mjm] * nworld, {}
+  if optb:
+    mj_models, blens = batch_options(np.random.default_rng(case["seed"] + 77), mjm, m, nworld)
   states = []
   for w in range(nworld):
     st = gen.sample_state(mjm, rng, vel=float(rng.choice([0.0, 0.3, 1.5])), quat_scale=False)
+    if optb:
+      # bodies stay where the scene put them (in contact); most of them slide / spin on the plane
+      q = np.array(mjm.qpos0, dtype=np.float64)
+      v = np.zeros(mjm.nv)
+      for b in range(mjm.nv // 6):
+        q[7 * b : 7 * b + 2] += rng.normal(size=2) * 0.003
+        if rng.random() < 0.8:
+          ang = rng.uniform(0, 2 * np.pi)
+          v[6 * b : 6 * b + 2] = rng.uniform(0.3, 3.0) * np.array([np.cos(ang), np.sin(ang)])
+        v[6 * b + 2] = -rng.uniform(0, 0.3)
+        v[6 * b + 3 : 6 * b + 6] = rng.normal(size=3) * rng.choice([0.0, 1.0, 4.0])
+      st["qpos"], st["qvel"] = q.astype(np.float32), v.astype(np.float32)
+      st["qfrc_applied"] = (np.asarray(st["qfrc_applied"]) * 0.1).astype(np.float32)
+      st["xfrc_applied"] = (np.asarray(st["xfrc_applied"]) * 0.1).astype(np.float32)
     if case["kind"] == "arm":
       # limited joints well beyond their range, velocities on the friction dofs
       q = np.array(st["qpos"], dtype=np.float64)
@@ -372,11 +483,11 @@ def run_case(case):
     if case["kind"] in ("pile", "repo") and w < 2:
       st["qpos"] = (np.array(mjm.qpos0) + (rng.normal(size=mjm.nq) * 0.01 if w else 0)).astype(np.float32)
       st["qvel"] = (st["qvel"] * 0.1).astype(np.float32)
-    st = S.settle(mjm, st, case["settle"])
+    st = S.settle(mj_models[w], st, case["settle"])
     states.append(st)
   # warmstarts: world 0 cold (zeros), world 1 hostile, world 2 near-optimal (MuJoCo's solution)
   try:
-    ref_d = [E.mj_optimum(mjm, st, tol=1e-10, iters=200) for st in states]
+    ref_d = [E.mj_optimum(mj_models[w], st, tol=1e-10, iters=200) for w, st in enumerate(states)]
   except mujoco.FatalError as e:
     rec.rejected = f"mujoco fatal error on this state: {e}"[:120]
     return rec.result()
@@ -463,11 +574,28 @@ def run_case(case):
       if P["cone_idx0"].size:
         rec.cover("elliptic_cones", int(P["cone_idx0"].size))
         rec.cover("elliptic_cones_middle_zone", int((P["state"][P["cone_idx0"]] == E.S_CONE).sum()))
+      if optb and p == 0:
+        # what makes a world of this family an observation: it is not world 0, its own option value differs from world 0's
+        # (and from the entry a read with ANOTHER option array's modulus would fetch), and the solve depends on it
+        rec.cover("optbatch:worlds_judged", 1)
+        nmid = int((P["state"][P["cone_idx0"]] == E.S_CONE).sum()) if P["cone_idx0"].size else 0
+        for fld, arr in (("impratio_invsqrt", m.opt.impratio_invsqrt), ("tolerance", m.opt.tolerance), ("ls_tolerance", m.opt.ls_tolerance), ("meaninertia", m.stat.meaninertia)):
+          a = mw.npy(arr)
+          own = float(a[w % a.shape[0]])
+          others = {float(a[w % k]) for k in OPTB_LENS if k <= a.shape[0]}
+          if w >= 1 and (own != float(a[0]) or others != {own}) and niter[w] >= 1:
+            rec.cover("optbatch:worlds>=1_own_" + fld, 1)
+            if fld == "impratio_invsqrt" and nmid:
+              rec.cover("optbatch:worlds>=1_own_impratio_with_cone_surface_contact", 1)
+              rec.cover("optbatch:cone_surface_contacts_in_worlds>=1_own_impratio", nmid)
+        gf = mw.npy(m.geom_friction)
+        if w >= 1 and gf.shape[0] > 1 and np.any(gf[w % gf.shape[0]] != gf[0]) and P["cone_idx0"].size:
+          rec.cover("optbatch:worlds>=1_own_geom_friction_with_cone", 1)
       if res is not None and res["nactive"] >= 3 and niter[w] >= 1:
         nontriv = True
       if res is not None:
         if p == 0:
-          refs[w], why = mujoco_reference(mjm, states[w], case["seed"] + w)
+          refs[w], why = mujoco_reference(mj_models[w], states[w], case["seed"] + w)
           if refs[w] is None:
             rec.count(why)
             rec.cover("mujoco_certificate:ungated", 1)
